@@ -33,7 +33,7 @@ REAL_COMPONENTS = ["cli _run launch loop", "expand_run_space (plan source)", "Ru
 STUB_COMPONENTS = ["leaf processors", "SvOrchestrator/RecordingExecutor selected from YAML", "SimClock/SimUUID", "file seam"]
 ASSUMPTIONS = ["the plan is taken from expand_run_space (C08 is not claimed)", "trace content is compared after removing the C10 "
                "volatile fields and the run-space FK fields (launch id, attempt, index, context)"]
-REQUIRED_PROBES = ["empty_plan", "yaml_not_in_cwd_with_source_and_decoy", "other_process_other_hashseed", "failing_run", "source_file", "idempotency_key", "explicit_launch_id", "attempt_gt_1", "multi_run_launch", "directory_mode", "run_space_nested_under_pipeline", "null_cell_in_later_row", "non_ascii_run_space_value", "failing_run_with_non_exception_abort"]
+REQUIRED_PROBES = ["empty_plan", "yaml_not_in_cwd_with_source_and_decoy", "other_process_other_hashseed", "failing_run", "source_file", "idempotency_key", "explicit_launch_id", "attempt_gt_1", "multi_run_launch", "directory_mode", "run_space_nested_under_pipeline", "null_cell_in_later_row", "non_ascii_run_space_value", "failing_run_with_non_exception_abort", "source_changed_keeping_size_and_mtime", "context_flag_for_a_run_space_key"]
 CONFIG = {
     "quick": {"runs": 800, "budget_s": 240, "timeout_s": 180},
     "thorough": {"runs": 30000, "budget_s": 1600, "timeout_s": 180},
@@ -66,6 +66,7 @@ def generate(rng: random.Random, tier: str, seed: int) -> dict:
         sc["files"] = {}
         sc["fail_at"] = None
     sc["nested_layout"] = rng.random() < 0.3
+    sc["ctx_flag_for_plan_key"] = rng.random() < 0.25
     sc["fail_kind"] = rng.choice(["exception", "exception", "exception", "abort", "sysexit"])
     sc["hashseed"] = rng.choice([1, 2, 3, 5, 6, 7, 11]) if (rsd["files"] or rng.random() < 0.15) else None
     return sc
@@ -115,6 +116,9 @@ def _launch(sc: dict, w, name: str, run_space: dict, *, opt: str, idem: str = "k
     for k, v in base["context"].items():
         if k not in plan_keys:
             argv += ["--context", f"{k}={harness.cli_value(v)}"]
+        elif sc.get("ctx_flag_for_plan_key") and isinstance(v, float):
+            # the command line ALSO names a key the run space supplies: the planned value of each run wins
+            argv += ["--context", f"{k}={harness.cli_value(v + 7000.0)}"]
     argv += list(extra)
     first = len(w.emissions)
     run0 = w.cur_run
@@ -481,14 +485,24 @@ def execute(sc: dict, seed: int) -> dict:
                 viols.append(oracles.V("inputs_id", "changes_without_content_change", f"{where}; {inputs_id} vs {s5.get('run_space_inputs_id')}"))
             text = sc["files"][fn]
             changed = re.sub(r"(\d+\.\d+)", lambda m: str(float(m.group(1)) + 500.0), text, count=1)
+            keep_stat = sc["mut_seed"] % 2 == 0
+            if keep_stat:
+                # what `rsync -t`, `cp -p` or a cache restore produce: other content, SAME size and SAME modification time
+                changed = re.sub(r"(\d)(\d*\.\d+)", lambda m: str((int(m.group(1)) % 9) + 1) + m.group(2), text, count=1)
+                st_old = os.stat(_pfx(sc) + fn)
             with open(_pfx(sc) + fn, "w") as f:
                 f.write(changed)
+            if keep_stat and len(changed) == len(text):
+                os.utime(_pfx(sc) + fn, ns=(st_old.st_atime_ns, st_old.st_mtime_ns))
+                stats["probe.source_changed_keeping_size_and_mtime"] = 1
             L6 = _launch(sc, w, "changed", rs, opt="generated")
             s6 = next((r for r in L6["records"] if r.get("record_type") == "run_space_start"), {})
             if changed != text and s6.get("run_space_inputs_id") == inputs_id:
                 viols.append(oracles.V("inputs_id", "unchanged_after_content_change", f"{where}; {inputs_id}"))
             if s6.get("run_space_spec_id") != spec_id:
                 viols.append(oracles.V("spec_id", "changes_with_file_content", f"{where}; {spec_id} vs {s6.get('run_space_spec_id')}"))
+        if sc.get("ctx_flag_for_plan_key") and any(k in all_keys for k in ctx0):
+            stats["probe.context_flag_for_a_run_space_key"] = 1
         if fail_at is not None:
             stats["probe.failing_run"] = 1
             stats["fault.exception"] = 1
